@@ -359,7 +359,7 @@ func TestC35(t *testing.T) {
 							nontrivial++
 
 							if r.WantSample() && idx%977 == 5 && !sampledStep[step] {
-							sampledStep[step] = true
+								sampledStep[step] = true
 
 								allow, assigned, _ := c35Decide(tb, w.superuser, u, s, req)
 								r.Sample(map[string]any{
